@@ -10,6 +10,8 @@ package channel
 
 //@ func (*Channel).SendInput
 //@   noverify
+//@   requires RI(c.Q) && c.PromptSearchDepth >= 0
+//@   ensures RI(c.Q)
 //@   modifies sent, optlog
 //@   ensures sent == old(sent) ++ strs(input)
 //@   ensures result.1 != nil ==> len(result.0) == 0
@@ -165,13 +167,15 @@ package channel
 //@ chanmode (*Channel).sendInteractive:cr count
 //@ func (*Channel).sendInteractive [C12 C11 C06]
 //@   requires RI(c.Q) && c.PromptSearchDepth >= 0 && (forall k int :: 0 <= k && k < len(events) ==> events[k] != nil)
-//@   requires cr != nil && !closed(cr)
+//@   requires cr != nil && !closed(cr) && cr != c.Q.depthChan
+//@   chaninv cr v => v != nil && RI(c.Q)
 //@   modifies wire, rd, c.Q.queue, c.Q.depth, echoed, quiet, alloc()
 //@   ensures #exactly-one-result chlen(cr) == old(chlen(cr)) + 1
 //@   at call Write#1 assert #input-only-after-previous-prompt i == 0 || quiet
 //@   at call Write#1 assert #hidden-inputs-are-redacted arg1 == e.HideInput
 //@   at call Write#1 assert #no-input-after-a-complete-pattern-matched i > 0 && len(op.CompletePatterns) > 0 ==> noneMatches(op.CompletePatterns, pb)
 //@   at call dyn#1 assert #hidden-inputs-not-awaited e.ChannelResponse != "" && !e.HideInput
+//@   at call ReadUntilAnyPrompt#1 assert #waits-for-the-expected-response-or-else-the-prompt arg1 === op.CompletePatterns ++ refs(e.ChannelResponse != "" ? compiled(e.ChannelResponse) : c.PromptPattern)
 //@   loop 1 invariant rangeindex < len(events) && RI(c.Q) && chlen(cr) == old(chlen(cr))
 //@   loop 1 invariant rangeindex >= 0 ==> quiet && i == rangeindex && (len(op.CompletePatterns) > 0 && rangeindex < len(events) - 1 ==> noneMatches(op.CompletePatterns, pb))
 //@   loop 2 invariant rangeindex#2 < len(op.CompletePatterns) && RI(c.Q) && chlen(cr) == old(chlen(cr)) && quiet && i == rangeindex && i < len(events) - 1
@@ -197,6 +201,7 @@ package channel
 //@   at call WriteAndReturn#1 assert #password-only-to-its-prompt-redacted reMatch(c.PasswordPattern, b) && !reMatch(c.PromptPattern, b) && arg0 == p && arg1 && pCount <= 2
 //@   at call WriteAndReturn#2 assert #passphrase-only-to-its-prompt-redacted reMatch(c.PassphrasePattern, b) && !reMatch(c.PasswordPattern, b) && !reMatch(c.PromptPattern, b) && arg0 == pp && arg1 && ppCount <= 2
 //@   at return assert #third-prompt-is-an-auth-error pCount > 2 || ppCount > 2 ==> result != nil && isErr(result.err, util.ErrAuthError)
+//@   at call sshMessageHandler#1 assert #failure-messages-are-searched-in-everything-read-since-the-last-credential arg0 == b
 //@   loop 1 invariant RI(c.Q) && 0 <= pCount && pCount <= 2 && 0 <= ppCount && ppCount <= 2
 
 //@ func (*Channel).authenticateTelnet [C10 C11]
@@ -234,8 +239,15 @@ package channel
 // assumed here, verified nowhere yet: the two outer exchange functions used by the network driver
 //@ func (*Channel).GetPrompt
 //@   noverify
+//@   requires RI(c.Q) && c.PromptSearchDepth >= 0
+//@   ensures RI(c.Q)
 //@   modifies wire, rd, c.Q.queue, c.Q.depth, quiet, alloc()
 //@   ensures result.1 != nil ==> len(result.0) == 0
-//@ func (*Channel).SendInteractive
-//@   noverify
+//@ func (*Channel).SendInteractive [C05 C06]
+//@   requires RI(c.Q) && c.PromptSearchDepth >= 0 && (forall k int :: 0 <= k && k < len(events) ==> events[k] != nil)
+//@   ensures RI(c.Q)
 //@   modifies wire, rd, sent, c.Q.queue, c.Q.depth, quiet, echoed, optlog, alloc()
+//@   chaninv cr v => v != nil && RI(c.Q)
+//@   at call WithTimeout#1 assert #operation-timeout-threaded arg1 == (op.Timeout == -1 ? c.TimeoutOps : (op.Timeout == 0 ? 86400 * 1000000000 : op.Timeout))
+//@   ensures #nil-payload-on-error result.1 != nil ==> len(result.0) == 0
+//@   at return assert #timeout-class result.1 != nil && r != nil && isErr(r.err, context.DeadlineExceeded) ==> isErr(result.1, util.ErrTimeoutError)
